@@ -1,5 +1,6 @@
 import WhVerif.Util.Proto
 import WhVerif.Model.C08
+import WhVerif.Model.C08Conv
 import WhVerif.Spec.C08
 namespace WhVerif.Driver.C08
 open Lean WhVerif.Proto WhVerif.C08
@@ -57,8 +58,116 @@ def table (inst : Inst) (col : Nat → ((Nat → Nat → Bool) → Float) × Flo
       ofList (fun g => fbits (nt.1 (fun t a => genoOf inst.parts i t a == g) / nt.2)) [0, 1, 2])
     cols) (List.range inst.nInd)
 
+/-! ### exact rational evaluation (`c08.fbrat`): no floating point anywhere on the model side -/
+
+/-- `"num/den"`, `"num"` or a JSON integer -/
+def ratOf? (j : Json) : Option Rat :=
+  match j.getInt? with
+  | .ok n => some (n : Rat)
+  | _ =>
+    match j.getStr? with
+    | .ok s =>
+      match s.splitOn "/" with
+      | [a] => a.toInt?.map (fun n => (n : Rat))
+      | [a, b] => do
+        let n ← a.toInt?
+        let d ← b.toNat?
+        if d = 0 then none else some ((n : Rat) / (d : Rat))
+      | _ => none
+    | _ => none
+
+def ratStr (q : Rat) : Json := Json.str (toString q.num ++ "/" ++ toString q.den)
+
+/-- `10^(-q/10)` is rational only for `q ≡ 0 (mod 10)`; `get_phred_probability(0)` = the double `0.9999` (`em0`) -/
+def phredRat? (em0 : Rat) (q : Nat) : Option Rat :=
+  if q = 0 then some em0 else if q % 10 = 0 then some (1 / ((10 : Rat) ^ (q / 10))) else none
+def recombRat? (q : Nat) : Option Rat := if q % 10 = 0 then some (1 / ((10 : Rat) ^ (q / 10))) else none
+
+def parseParamsRat (inst : Inst) (j : Json) : Option (Params Rat) := do
+  let recomb ← getNatList? j "recomb"
+  let recA ← recomb.mapM recombRat?
+  let pri ← (← getList? j "priors").mapM (fun ind => do (← asArr? ind).mapM (fun col => do (← asArr? col).mapM ratOf?))
+  let priA : Array (Array (Array Rat)) := (pri.map (fun ind => (ind.map List.toArray).toArray)).toArray
+  let recA := recA.toArray
+  -- every quality that occurs must be exactly representable
+  -- `result[0] = 0.9999;` stores the *double* nearest to 0.9999 in the long double table: the caller passes its exact value
+  let em0 : Rat := match getObj? j "em0" with | some v => (ratOf? v).getD ((9999 : Rat) / 10000) | none => (9999 : Rat) / 10000
+  let quals := inst.reads.flatMap (fun r => r.entries.map (·.2.2))
+  let _ ← quals.mapM (phredRat? em0)
+  some { em := fun q => (phredRat? em0 q).getD 0
+         rho := fun c => recA.getD c 1
+         prior := fun i c g => ((priA.getD i #[]).getD c #[]).getD g 0 }
+
+def tableRat (inst : Inst) (col : Nat → ((Nat → Nat → Bool) → Rat) × Rat) : Json :=
+  let cols := (List.range inst.nCols).map col
+  ofList (fun i => ofList (fun (nt : ((Nat → Nat → Bool) → Rat) × Rat) =>
+      ofList (fun g => ratStr (nt.1 (fun t a => genoOf inst.parts i t a == g) / nt.2)) [0, 1, 2])
+    cols) (List.range inst.nInd)
+
+/-- exact rational value of a finite double (sign, exponent, mantissa) as (numerator, denominator) -/
+def floatRat (x : Float) : Int × Nat :=
+  let b := x.toBits.toNat
+  let sign : Int := if b / 2 ^ 63 = 1 then -1 else 1
+  let e := (b / 2 ^ 52) % 2048
+  let m := b % 2 ^ 52
+  -- value = mant · 2^(ex - 1075) with mant = m (+ 2^52 if normal), ex = max e 1
+  let mant := if e = 0 then m else m + 2 ^ 52
+  let ex := if e = 0 then 1 else e
+  if ex ≥ 1075 then (sign * (mant * 2 ^ (ex - 1075) : Nat), 1) else (sign * (mant : Nat), 2 ^ (1075 - ex))
+
 def handle (op : String) (j : Json) : Option Json :=
-  if op == "c08.fb" then
+  if op == "c08.conv" then
+    -- what write_genotypes derives from one likelihood triple and the called genotype (null = ./.):
+    -- GL = [max(log10 j, -1000) if j > 0 else -1000], geno_q = sum of the others (Python `sum`: 0 + x + y),
+    -- GQ = min(round(-10 log10 geno_q), 10000) if geno_q > 0 else 10000 – evaluated EXACTLY on the rational value of geno_q
+    match (getObj? j "gl").bind floatList? with
+    | some [l0, l1, l2] =>
+      let ls := [l0, l1, l2]
+      let gl := ls.map (fun l => fbits (glOf Float.log10 (-1000.0) l))
+      let g? : Option Nat := getNat? j "g"
+      match g? with
+      | none => some (Json.mkObj [("GL", Json.arr gl.toArray), ("GQ", Json.null)])
+      | some g =>
+        let q : Float := (List.range 3).foldl (fun acc i => if i = g then acc else acc + ls.getD i 0) 0.0
+        let (n, d) := floatRat q
+        some (Json.mkObj [("GL", Json.arr gl.toArray), ("q", fbits q), ("GQ", ofInt (gqOf n d)),
+          ("mass_model", fbits (gqMass (fun i => ls.getD i 0) g))])
+    | _ => some badInput
+  else if op == "c08.gq" then
+    -- GQ of an exact rational mass "num/den"; and the exact threshold test for likelihood a/b and integer phred threshold
+    match getObj? j "q" with
+    | some v =>
+      match ratOf? v with
+      | some q => some (Json.mkObj [("GQ", ofInt (gqOf q.num q.den))])
+      | none => some badInput
+    | none =>
+      match getNat? j "a", getNat? j "b", getNat? j "thr" with
+      | some a, some b, some thr => some (Json.mkObj [("above", Json.bool (aboveThr a b thr))])
+      | _, _, _ => some badInput
+  else if op == "c08.fbrat" then
+    -- the posterior over exact rationals: the model at `K = ℚ` with scaling 1 (= the brute-force posterior by
+    -- `forward_backward_posterior`; with "brute": true the plain enumeration is evaluated as well and must be identical)
+    match parseInst j with
+    | none => some badInput
+    | some inst =>
+      if !inst.WF then some (Json.mkObj [("error", Json.str "not-WF")]) else
+      match parseParamsRat inst j with
+      | none => some (Json.mkObj [("error", Json.str "not-exactly-representable")])
+      | some p =>
+        let F := inst.frame
+        let W := inst.weights p
+        let S : Scal Rat := Scal.one
+        let lik := tableRat inst (fun c =>
+          let cells := fbCells F W S c
+          let nAct := (F.col c).nAct
+          (fun sel => numerOf W nAct cells sel, numerOf W nAct cells (fun _ _ => true)))
+        let zero := (List.range inst.nCols).any (fun c => total F W S c == 0)
+        let base := [("lik", lik), ("zero_total", Json.bool zero)]
+        if (getBool? j "brute").getD false then
+          some (Json.mkObj (base ++ [("post", tableRat inst (fun c =>
+            (fun sel => specNumer F W c sel, specNumer F W c (fun _ _ => true))))]))
+        else some (Json.mkObj base)
+  else if op == "c08.fb" then
     match parseInst j, parseParams j, parseScal j with
     | some inst, some p, some S =>
       if !inst.WF then some (Json.mkObj [("error", Json.str "not-WF")]) else
